@@ -398,10 +398,11 @@ def u_write_iteration(ctx, index):
     if w[2] == 'ret':
       ctx.cover('iteration/committed')
       cp = [a for a in incs if a[0] == 'committedPoints']
-      ctx.check('C03/writeCachedDataPoints/committed_counted_once',
+      # (the committedPoints counter for successful writes is not demanded by C03: informative)
+      ctx.check('aux/writeCachedDataPoints/committed_counted_once',
                 z3.BoolVal(len(cp) == 1 and 'errors' not in inc_names and 'droppedCreates' not in inc_names))
       if len(cp) == 1 and good:
-        ctx.check('C03/writeCachedDataPoints/committed_count_is_batch_size', cp[0][1] == batch.length())
+        ctx.check('aux/writeCachedDataPoints/committed_count_is_batch_size', cp[0][1] == batch.length())
     else:
       ctx.cover('iteration/write_fails')
       ctx.check('C03/writeCachedDataPoints/write_failure_reported',
